@@ -162,6 +162,17 @@ def step (s : Sess) (toks : List String) : Sess × String :=
       let (w, c) := s.w.newCircuit r
       ({ s with w := w, circs := s.circs.push c, regs := s.regs.push c }, s!"c{s.circs.size}")
     | none => bad
+  | ["new", r, rel] =>
+    -- a circuit constructed with an explicit relation `h:T` to an existing operation
+    match parseRep? r, rel.splitOn ":" with
+    | some r, [h, t] =>
+      match h.toNat?, parseRel? t with
+      | some h, some rt =>
+        if h ≥ s.handles.size then bad else
+        let (w, c) := s.w.newCircuitRel r s.handles[h]! rt
+        ({ s with w := w, circs := s.circs.push c, regs := s.regs.push c }, s!"c{s.circs.size}")
+      | _, _ => bad
+    | _, _ => bad
   | ["op", c, cls, qs, chan, dur, tag, reg, ints, rel] =>
     match c.toNat?, Cls.ofName? cls, parseList String.toInt? qs, parseChan? chan, parseDur? dur,
           tag.toNat?, reg.toNat?, parseList parseOptInt? ints with
